@@ -22,20 +22,22 @@ FUNCTIONS = ["edp_client::fragmentation::FragmentAssembler::{start_fragment, add
 ASSUMPTIONS = [
     "std containers are modelled, not executed: Vec<T> = list with a concrete length per path, HashMap = insertion-ordered association list "
     "(drain order = insertion order), Vec<u8> payload = sequence of opaque chunks, Option/Result = enums with concrete discriminant per path",
-    "tracing is disabled (every `trace!` guard is false); Instant::now is opaque: expiry (cleanup_expired) is outside the claim",
+    "tracing is disabled (every `trace!` guard is false); the clock is an input: every Instant::now()/elapsed() reads an arbitrary non-decreasing instant",
     "a duplicate of a fragment carries the same bytes as the original; all headers of one message carry the same count, cache data and payload",
     "payload identities are 64-bit tokens (two chunks are the same bytes iff their tokens are equal); each payload is shorter than 2^40 bytes",
     "trusted: nightly rustc's MIR, the interpreter and container models in /verif/mir_smt/heapex.py, z3 4.8.12; every counterexample is replayed "
     "on the real FragmentAssembler (native binary) before it is reported",
 ]
 OUTSIDE = ["messages of more than 3 fragments (quick: 2); more than N+2 calls per script; more than 2 interleaved sequences",
-           "fragment counts above 100000 (the pending-map path of FragmentedMessage::new)", "expiry / cleanup_expired", "headers whose count differs between duplicates"]
+           "fragment counts above 100000 (the pending-map path of FragmentedMessage::new)", "expiry is decided for cleanup_expired itself (Duration modelled as one 64-bit number); that nothing in connection.rs ever calls it is not", "headers whose count differs between duplicates"]
 KMAX = {"quick": 1, "thorough": 2}     # extra calls beyond N
 
 
 def bounds(tier):
-    return {"fragments_per_message": "N in 1..%d" % (2 if tier == "quick" else 3),
-            "calls": "every script over {header, continuation} of length N+%d on one sequence; 4 two-sequence interleavings" % KMAX[tier],
+    return {"fragments_per_message": "N in 1..3",
+            "calls": "every script over {header, continuation} of length N+%d on one sequence (quick: N+1, thorough: N+2); two-sequence interleavings "
+                     "(quick 4, thorough all 4-call interleavings of two 2-fragment messages); headers with and without atom-cache data; "
+                     "4 expiry scripts ending in cleanup_expired with a symbolic clock" % KMAX[tier],
             "symbolic": "continuation fragment ids (any u64 incl. 0, duplicates, out of range), both sequence ids (any distinct u64), payload/cache tokens",
             "decided_per_path": "Some/None against the reference model's completion, delivered chunk order against cache++p(N)..p(1), pending_count <= live sequences, no panic"}
 
@@ -88,6 +90,10 @@ def scripts_for(tier):
             if not any(c == "S" for c, _ in calls):
                 continue    # without a header nothing can complete; covered by the scripts whose header comes last
             out.append(("n%d_%s" % (n, "".join(c for c, _ in calls)), {"A": n}, calls))
+    if tier == "quick":      # 3-fragment messages with one extra call (a duplicate header mid-sequence needs N >= 3 to matter)
+        for bits in range(1, 1 << 4):
+            calls = [("S" if (bits >> i) & 1 else "A", "A") for i in range(4)]
+            out.append(("n3_%s" % "".join(c for c, _ in calls), {"A": 3}, calls))
     two = [[("S", "A"), ("S", "B"), ("A", "A"), ("A", "B")], [("A", "A"), ("A", "B"), ("S", "A"), ("S", "B")],
            [("S", "A"), ("A", "B"), ("A", "A"), ("S", "B")], [("A", "B"), ("S", "A"), ("S", "B"), ("A", "A")]]
     for i, calls in enumerate(two):
@@ -371,7 +377,127 @@ def replay(counts, calls, vals, label, cache=True):
     return differs, {"dev": (101 if differs else 0, "native %s pending=%s; reference %s live=%s" % (got, pend, exp, live))}
 
 
+# ------------------------------------------------------------------------------------------------ expiry (clock = symbolic input)
+CLOCK_W = 16     # instants and durations are CLOCK_W-bit numbers (the code only subtracts and compares them); every reading is below 2^(CLOCK_W-2)
+EXPIRY_SCRIPTS = [("expiry_one", {"A": 2}, [("A", "A")]), ("expiry_two", {"A": 2, "B": 2}, [("A", "A"), ("A", "B")]),
+                  ("expiry_refresh", {"A": 3, "B": 2}, [("S", "A"), ("A", "B"), ("A", "A")]),
+                  ("expiry_after_completion", {"A": 2, "B": 2}, [("S", "A"), ("A", "B"), ("A", "A")])]
+
+
+def run_expiry(name, counts, calls, code):
+    """calls, then cleanup_expired with every clock reading an arbitrary non-decreasing instant: a sequence is dropped only if more than
+    the timeout has passed since before its last fragment, kept only if no more than the timeout had passed when cleanup began"""
+    fns, consts, table, resolver = code
+    t0 = time.time()
+    spec = Spec(counts, calls)
+    sol = heapex.Solver(timeout_s=120)
+    failures, npaths, done = [], 0, 0
+    try:
+        sol.declare("hx_probe", "(_ BitVec 64)")
+        for n_, s_ in list(spec.inputs().items()) + [("in_t0", "(_ BitVec %d)" % CLOCK_W), ("in_timeout", "(_ BitVec %d)" % CLOCK_W)]:
+            sol.declare(n_, s_)
+        xs = sorted(counts)
+        if len(xs) == 2:
+            sol.assume("(not (= in_s%s in_s%s))" % (xs[0], xs[1]))
+        for a in spec.assume:
+            sol.assume(a)
+        sol.assume("(bvult in_t0 (_ bv%d %d))" % (1 << (CLOCK_W - 2), CLOCK_W))
+        for n_ in spec.inputs():
+            if n_.startswith("in_l"):
+                sol.assume("(bvult %s (_ bv1099511627776 64))" % n_)
+        it = heapex.Interp(fns, consts, sol, resolver, max_alloc=4)
+        work, seen = [[]], set()
+        while work:
+            prefix = work.pop()
+            it.reset(prefix)
+            it.clock_on, it.clock_last, it.clock_w = True, "in_t0", CLOCK_W
+            npaths += 1
+            if npaths > 3000:
+                raise symex.Unsupported("more than 3000 paths")
+            asm = [symex.Val("struct", name="FragmentAssembler", fields=[symex.Val("map", entries=[]), symex.BV(CLOCK_W, "in_timeout")])]
+            aref = lambda: symex.Val("ref", lst=asm, idx=0)
+            fail = None
+            try:
+                lo, hi = {}, {}
+                for k, (kind, x) in enumerate(calls):
+                    before = it.clock_last
+                    seq = symex.Val("struct", name="SequenceId", fields=[symex.BV(64, "in_s%s" % x)])
+                    if kind == "S":
+                        it.call_fn(table["FragmentAssembler::start_fragment"], [aref(), seq, symex.BV(64, bv64(counts[x])),
+                                   heapex.SOME(bytes_val("in_c%s" % x, "in_lc%s" % x)), bytes_val("in_h%s" % x, "in_lh%s" % x)])
+                    else:
+                        it.call_fn(table["FragmentAssembler::add_fragment"], [aref(), seq, symex.BV(64, "in_f%d" % k), bytes_val("in_p%d" % k, "in_l%d" % k)])
+                    lo[x], hi[x] = before, it.clock_last
+                keys = lambda: [e[0].fields[0].s for e in asm[0].fields[0].entries]
+                p0 = keys()
+                t_begin = it.clock_last
+                ret = it.call_fn(table["FragmentAssembler::cleanup_expired"], [aref()])
+                t_end = it.clock_last
+                p1 = keys()
+                want = sorted(spec.inputs()) + ["in_t0", "in_timeout"]
+                for kx in p0:
+                    x = kx[len("in_s"):]
+                    if kx not in p1:
+                        r, m = sol.check(it.pc + ["(not (bvugt (bvsub %s %s) in_timeout))" % (t_end, lo[x])], want_model=want)
+                        if r == "sat":
+                            fail = ("L:cleanup_drops_a_sequence_that_has_not_expired", m)
+                            break
+                    else:
+                        r, m = sol.check(it.pc + ["(bvugt (bvsub %s %s) in_timeout)" % (t_begin, hi[x])], want_model=want)
+                        if r == "sat":
+                            fail = ("L:cleanup_keeps_an_expired_sequence", m)
+                            break
+                    if r != "unsat":
+                        raise symex.Unsupported("solver %s" % r)
+                if fail is None and heapex.lit_int(ret) != len(p0) - len(p1):
+                    r, m = sol.check(it.pc, want_model=want)
+                    fail = ("L:cleanup_returns_a_wrong_count", m)
+                if fail is None:
+                    cnt = it.call_fn(table["FragmentAssembler::pending_count"], [aref()])
+                    if heapex.lit_int(cnt) != len(p1):
+                        r, m = sol.check(it.pc, want_model=want)
+                        fail = ("L:pending_count_after_cleanup", m)
+                done += 1
+            except heapex.Panic as e:
+                r, m = sol.check(it.pc, want_model=sorted(spec.inputs()))
+                fail = ("L:panics:" + re.sub(r"[^A-Za-z0-9]+", "_", str(e))[:60], m if r == "sat" else None)
+            except heapex.Infeasible:
+                pass
+            work.extend(it.pending)
+            if fail and fail[0] not in seen:
+                seen.add(fail[0])
+                lab, m = fail
+                ok, rr = replay_expiry(lab)
+                failures.append({"kind": "assert", "label": lab, "prop": "c09_" + name, "function": "FragmentAssembler::cleanup_expired",
+                                 "desc": "script %s then cleanup_expired; model %s" % (" ".join("%s:%s" % c for c in calls), {a: b for a, b in (m or {}).items() if not a.startswith("in_l")}),
+                                 "values": [lab], "replayed": ok, "replay_result": rr, "e2": {"expiry": lab}})
+        if done == 0 and not failures:
+            return _rec("c09_" + name, "VACUOUS", time.time() - t0, notes=["no path ran to the end of the script"])
+        sample = {"script": " ".join("%s:%s" % c for c in calls) + " cleanup_expired", "paths": npaths, "solver_queries": sol.queries, "solver_s": round(sol.seconds, 2),
+                  "clock": "every Instant::now()/elapsed() reads a fresh symbolic %d-bit instant >= the previous one; timeout symbolic" % CLOCK_W}
+        return _rec("c09_" + name, "FAIL" if failures else "PASS", time.time() - t0, failures=failures, sample=sample, solver_s=sol.seconds, queries=sol.queries, paths=npaths)
+    except symex.Unsupported as e:
+        return _rec("c09_" + name, "INCONCLUSIVE", time.time() - t0, notes=["cannot encode: %s" % e], queries=sol.queries, paths=npaths)
+    finally:
+        sol.close()
+
+
+def replay_expiry(label):
+    """native scenarios on the real clock: a fresh sequence must survive cleanup under a long timeout, an old one must be dropped under a short one"""
+    from . import c16_replay
+    b = c16_replay._binary()
+    if b is None:
+        return False, {"dev": (-1, "replay build failed")}
+    try:
+        p = subprocess.run([b, "fragexp"], stdout=subprocess.PIPE, stderr=subprocess.STDOUT, text=True, timeout=60)
+    except subprocess.TimeoutExpired:
+        return False, {"dev": (-2, "timeout")}
+    return p.returncode == 101, {"dev": (p.returncode, p.stdout[-400:])}
+
+
 def replay_case(case):
+    if (case.get("e2") or {}).get("expiry"):
+        return replay_expiry(case["e2"]["expiry"])
     e = case.get("e2") or {}
     if not e:
         return None
@@ -395,6 +521,13 @@ def extra_checks(tier, seed):
         if only and not re.search(only, name):
             continue
         r = run_script(name, counts, calls, code, tier)
+        out.append(r)
+        log("[C09] %-44s %-12s %6.1fs paths=%s queries=%s %s" % (r["harness"], r["status"], r["wall_s"], r.get("steps"), r.get("vccs"),
+                                                              "; ".join(r.get("notes") or []) or ", ".join(x["label"] for x in r.get("failures", []))))
+    for name, counts, calls in EXPIRY_SCRIPTS:
+        if only and not re.search(only, name):
+            continue
+        r = run_expiry(name, counts, calls, code)
         out.append(r)
         log("[C09] %-44s %-12s %6.1fs paths=%s queries=%s %s" % (r["harness"], r["status"], r["wall_s"], r.get("steps"), r.get("vccs"),
                                                               "; ".join(r.get("notes") or []) or ", ".join(x["label"] for x in r.get("failures", []))))
